@@ -354,16 +354,28 @@ pub fn run(ctx: &Ctx) -> Outcome {
         per.push(json!({"scenario": s.name(), "depth": depth, "states": st.states, "transitions": st.transitions, "depth_completed": st.depth_completed, "choice_points": st.choice_points, "frontier": st.frontier_sizes}));
         total.merge(&st);
     }
+    // "over any number of connections": tracker-driven reconnects (a host re-listed under a new peer
+    // id, peers leaving while a completion is in flight) exist only in the full-session world
+    for (s, depth) in crate::c02::storage_scenarios() {
+        let st = explore::bfs(ctx, &s, depth, ctx.tier.pick(50, 25));
+        per.push(json!({"scenario": explore::Sys::name(&s), "depth": depth, "states": st.states, "transitions": st.transitions, "depth_completed": st.depth_completed}));
+        total.merge(&st);
+    }
     let mut o = Outcome::new("model_checking");
     explore::stats_outcome(&total, &mut o);
     o.set("scenarios", Value::Array(per));
-    o.set("rule", json!("torrent: piece 0 = 16387 B (blocks 16384 + 3), piece 1 = 5 B; adversarial peer k (after handshake + full bitfield): N unchoke, Go/Gn correct answer to the oldest/newest outstanding request, Xo/Xn same coordinates with one payload bit flipped, Wi other piece index, Wb begin+1, Wl/WL one byte short/long, D duplicate of the last accepted block, U block at an offset never requested, C choke, Z close, R reset, L release of a held-back broadcast; observer (incoming): So joins at any point (handshake + empty bitfield + interested in one read; the bitfield it is sent is checked), then Q0/Q1 requests the first block of piece 0/1; histories with at most `dev` non-honest events (N, G*, L are honest); every tie-break of the chooser enumerated."));
+    o.set("rule", json!("torrent: piece 0 = 16387 B (blocks 16384 + 3), piece 1 = 5 B; adversarial peer k (after handshake + full bitfield): N unchoke, Go/Gn correct answer to the oldest/newest outstanding request, Xo/Xn same coordinates with one payload bit flipped, Wi other piece index, Wb begin+1, Wl/WL one byte short/long, D duplicate of the last accepted block, U block at an offset never requested, C choke, Z close, R reset, L release of a held-back broadcast; observer (incoming): So joins at any point (handshake + empty bitfield + interested in one read; the bitfield it is sent is checked), then Q0/Q1 requests the first block of piece 0/1; histories with at most `dev` non-honest events (N, G*, L are honest); every tie-break of the chooser enumerated. Plus two full-session scenarios borrowed from C02 (storage-*): a host re-listed by the tracker under a new peer id while its old connection is live, and two seeders with held-back broadcasts; there only 'Have implies a stored verified piece' and 'owned stays owned' are evaluated."));
     o.assume("payload bytes enter the state key only as per-block tags {empty, correct, corrupt}: no code path inspects payload other than through SHA-1 of the whole piece");
     o
 }
 
 pub fn replay(_ctx: &Ctx, r: &Value) -> i32 {
     let name = r["scenario"].as_str().unwrap();
+    for (s, _) in crate::c02::storage_scenarios() {
+        if explore::Sys::name(&s) == name {
+            return explore::replay_verbose(&s, &explore::hist_from_json(&r["history"]), "C01");
+        }
+    }
     for thorough in [false, true] {
         for (s, _) in scenarios(thorough) {
             if s.name() == name {
